@@ -210,19 +210,23 @@ FAMILIES = [
                 "slow line path end-to-end == grep model with passthru ON; symbolic hit table, invert, "
                 "line numbers, stop-on-nonmatch",
                 SLOW_E2E_FUNCS, timeout=600, rules=searcher_rules(2)),
-    ShapeFamily("c16_fast_confirmed", ["C03", "C01", "C16"], SEARCHER, CORE_MOD, GEN,
+    ShapeFamily("c03_fast_confirmed", ["C03", "C01"], SEARCHER, CORE_MOD, GEN,
                 "FAST line path end-to-end (match_by_line_fast, find_by_line_fast, fast_invert), matcher reports Confirmed "
-                "offsets: uninterrupted run == grep model, run interrupted at symbolic sink call k (stop or error) == prefix; "
-                "all hit patterns x invert x (A,B) in {(0,0),(1,1)} enumerated in-harness; k, stop/error, line numbering symbolic",
-                FAST_FUNCS, timeout=1200, rules=searcher_rules(2), unwind=lambda sh: 40,
-                quick_shapes=["q_two", "q_blank_mid", "q_crlf_mix", "q_blank_first"], shape_filter=lambda sh: sh.nl <= 3),
-    ShapeFamily("c16_fast_candidate_all", ["C03", "C01", "C16"], SEARCHER, CORE_MOD, GEN,
-                "fast line path, every line is a Candidate (maximal prefilter false positives, re-check on stripped line), "
-                "(A,B)=(1,1), with/without invert: model / prefix at symbolic k",
+                "offsets == grep model; all hit patterns x invert x (A,B) in {(0,0),(1,1),(2,0),(0,2)} enumerated in-harness "
+                "(concrete per iteration so the scan position folds); line numbering symbolic",
+                FAST_FUNCS, timeout=1200, rules=searcher_rules(2), unwind=lambda sh: 40, quick_shapes=["q_one_unterm", "q_two", "q_blank_mid", "q_crlf_mix", "q_blank_first", "q_nul"], shape_filter=lambda sh: sh.nl <= 3),
+    ShapeFamily("c03_fast_candidate_all", ["C03", "C01"], SEARCHER, CORE_MOD, GEN,
+                "fast line path, every line is a Candidate (maximal prefilter false positives, re-check on stripped line) == grep model",
+                FAST_FUNCS, timeout=1200, rules=searcher_rules(2), unwind=lambda sh: 40, quick_shapes=["q_one_unterm", "q_two", "q_blank_mid", "q_crlf_mix", "q_blank_first", "q_nul"], shape_filter=lambda sh: sh.nl <= 3),
+    ShapeFamily("c03_fast_stop", ["C03", "C01"], SEARCHER, CORE_MOD, GEN,
+                "fast line path with stop-on-nonmatch (switch to the slow loop after the first match) == grep model",
+                FAST_FUNCS, timeout=1200, rules=searcher_rules(2), unwind=lambda sh: 40, quick_shapes=["q_one_unterm", "q_two", "q_blank_mid", "q_crlf_mix", "q_blank_first", "q_nul"], shape_filter=lambda sh: sh.nl <= 3),
+    ShapeFamily("c16_fast_refuse", ["C16"], SEARCHER, CORE_MOD, GEN,
+                "fast line path: sink refuses at every call index k (enumerated): delivered == prefix + exactly one finish",
                 FAST_FUNCS, timeout=1200, rules=searcher_rules(2), unwind=lambda sh: 40,
                 quick_shapes=["q_two", "q_blank_mid", "q_crlf_mix"], shape_filter=lambda sh: sh.nl <= 3),
-    ShapeFamily("c16_fast_stop", ["C03", "C01", "C16"], SEARCHER, CORE_MOD, GEN,
-                "fast line path with stop-on-nonmatch (switch to the slow loop after the first match): model / prefix at symbolic k",
+    ShapeFamily("c16_fast_error", ["C16"], SEARCHER, CORE_MOD, GEN,
+                "fast line path: sink fails at every call index k (enumerated): error returned, prefix, no finish",
                 FAST_FUNCS, timeout=1200, rules=searcher_rules(2), unwind=lambda sh: 40,
                 quick_shapes=["q_two", "q_blank_mid"], shape_filter=lambda sh: sh.nl <= 3),
     ShapeFamily("c01_find_by_line_fast", ["C01", "C03"], SEARCHER, CORE_MOD, GEN,
